@@ -438,7 +438,7 @@ func (vc *VC) effectTag(key string) string {
 }
 
 // logEffect appends one event to the trace.
-func (vc *VC) logEffect(st *State, key string, recv string, strs []string, err string) {
+func (vc *VC) logEffect(st *State, key string, recv string, strs []string, err string, payload string) {
 	tc, lc := vc.traceCells(st)
 	s1, s2 := "\"\"", "\"\""
 	if len(strs) > 0 {
@@ -453,7 +453,10 @@ func (vc *VC) logEffect(st *State, key string, recv string, strs []string, err s
 	if err == "" {
 		err = "enil"
 	}
-	ev := fmt.Sprintf("(mk_ev %s %s %s %s %s)", vc.effectTag(key), recv, s1, s2, err)
+	if payload == "" {
+		payload = "0"
+	}
+	ev := fmt.Sprintf("(mk_ev %s %s %s %s %s %s)", vc.effectTag(key), recv, s1, s2, err, payload)
 	ln := st.cells[lc]
 	st.cells[tc] = vc.define("trace", "(Array Int Event)", fmt.Sprintf("(store %s %s %s)", st.cells[tc], ln, ev))
 	st.cells[lc] = vc.define("tlen", "Int", fmt.Sprintf("(+ %s 1)", ln))
@@ -501,4 +504,17 @@ func (vc *VC) setUnion(a, b string) string {
 		)
 	}
 	return fmt.Sprintf("(setunion_String %s %s)", a, b)
+}
+
+// evBox returns the names of the injective boxing of values of a sort into event payloads (box, unbox), declaring
+// them with unbox(box(x)) = x on first use.
+func (vc *VC) evBox(srt string) (string, string) {
+	box, unbox := "evbox_"+srt, "evunbox_"+srt
+	if !vc.declOf["evbox:"+srt] {
+		vc.declOf["evbox:"+srt] = true
+		vc.declareFun(box, []string{srt}, "Int")
+		vc.declareFun(unbox, []string{"Int"}, srt)
+		vc.axioms = append(vc.axioms, fmt.Sprintf("(forall ((?x %s)) (! (= (%s (%s ?x)) ?x) :pattern ((%s ?x))))", srt, unbox, box, box))
+	}
+	return box, unbox
 }
